@@ -156,6 +156,15 @@ func c14Layouts(tier string, f func(n int, feats []Feat)) (nodes int) {
 								nodes++
 								ft, end := one("geneA", o, coding, cs, split, gap, rev, st)
 								f(end+2, []Feat{ft})
+								if !rev && split > 0 && gap > 0 {
+									// the same gene with its first coding segment downstream of the second (a feature
+									// spanning the origin of a circular genome): join(b..c,a..a') / GFF rows in that order
+									nodes++
+									l1, l2 := ft.Segs[0].B-ft.Segs[0].A+1, ft.Segs[1].B-ft.Segs[1].A+1
+									sw := ft
+									sw.Segs = []Seg{{o + l2 + gap, o + l2 + gap + l1 - 1}, {o, o + l2 - 1}}
+									f(end+2, []Feat{sw})
+								}
 								// second feature downstream on either strand, simple shapes
 								if coding == 6 && (split == 0 || split == 2 || split == 4) {
 									for _, rev2 := range []bool{false, true} {
@@ -390,7 +399,7 @@ func init() {
 		Rule: "bounded-exhaustive differential between the GenBank and GFF3 front-ends of the real code: every layout of one gene with coding length 6 or 9, codon_start 1..3 (GFF phase 0..2), start offset 1..3, either strand, unsplit or split into two segments at every base with an intron of 1..3 bases (reverse joins in both GenBank spellings), plus a second gene downstream (either strand, codon_start 1..2, unsplit or split) and in-frame nested gene pairs sharing a stop codon; the genome is built so that every gene is sense codons + stop. Each layout is rendered as a GenBank flat file and as GFF3 (rows sharing an ID in ascending order, continuation rows carrying the phase the GFF3 specification prescribes, ##FASTA) and run through `variants` and `sam variants` on every single substitution over ACGT, four deletions, the unchanged genome and one 2-base insertion; the per-sequence multisets of records must be equal. " +
 			"A case is one (layout, command, query); non-trivial = a non-empty mutation list; each generated once",
 		Assumptions: []string{
-			"'expressible in both formats': the leading partial codon (codon_start-1 bases) lies inside the first coding segment; GFF rows of one ID in ascending genomic order, one strand per ID (gofasta's GFF reader refuses mixed strands), every gene ending in a stop codon (the GenBank /translation omits it and gofasta appends '*')",
+			"'expressible in both formats': the leading partial codon (codon_start-1 bases) lies inside the first coding segment; GFF rows of one ID in ascending genomic order, one strand per ID (gofasta's GFF reader refuses mixed strands), forward-strand rows in coding order (ascending, or origin-spanning with the first coding segment downstream), reverse-strand rows ascending, every gene ending in a stop codon (the GenBank /translation omits it and gofasta appends '*')",
 			"records sharing a position are compared as a multiset (order among them not judged)",
 		},
 		Bounds: func(tier string) map[string]interface{} {
